@@ -23,6 +23,11 @@ for pid in ids:
         for line in open(f):
             if line.startswith('# what:'):
                 earlier.append(line[7:].strip()[:220]); break
+    extra = f'/verif/tools/agents/BENIGN_EXTRA_{suffix}.txt'
+    if os.path.exists(extra):
+        prompt += open(extra).read()
+        for s in earlier: prompt += f"  - {s}\n"
+        earlier = []
     if earlier:
         prompt += ("\n\nVARIETY — the following refactorings were already collected for this property; produce five that are DIFFERENT in kind and, "
                    "where you can, larger in scope (e.g. move logic into a new unexported type with methods, replace a closure-based traversal callback by a named method value, "
